@@ -308,6 +308,19 @@ def finishTask (e : Env) (σ : St) (t : Nat) (w : Walk) (before : Rat) (fwd : Bo
     let σ1 : St := { σ with led := σ.led.set r w.cur (s.release t need) }
     (releaseOthers σ1 t w.cur r need (w.selected.getD []), date)
 
+/-- is the amount the finishing date is rounded from an exact `.5` tie?  (Python rounds the *double*;
+    at an exact tie the double may sit on either side, so such cases are not compared) -/
+def finishIsTie (e : Env) (σ : St) (t : Nat) (w : Walk) (before : Rat) : Bool :=
+  match w.last with
+  | none => false
+  | some r =>
+    let s := σ.led.get r w.cur
+    let usedBefore := match usageOf s.usage t with
+      | some b => s.used - b
+      | none => 0
+    let x := usedBefore + needSecs e σ t w before r
+    x - x.floor == 1 / 2
+
 /-- `TaskScenario.scheduleSlot()`; the Bool is the loop condition (True = go on) -/
 def scheduleSlot (e : Env) (σ : St) (t : Nat) (w : Walk) : St × Walk × Bool :=
   let d := e.taskD t
@@ -331,7 +344,8 @@ def scheduleSlot (e : Env) (σ : St) (t : Nat) (w : Walk) : St × Walk × Bool :
     if w1.done ≥ d.effort then
       let (σ2, date) := finishTask e σ1 t w1 before ts.forward
       let ts2 := σ2.tst t
-      (σ2.setT t (if ts.forward then { ts2 with stop := some date } else { ts2 with start := some date }), w1, false)
+      let σ3 := σ2.setT t (if ts.forward then { ts2 with stop := some date } else { ts2 with start := some date })
+      ({ σ3 with warnings := if finishIsTie e σ1 t w1 before then σ3.warnings ++ ["rounding-tie"] else σ3.warnings }, w1, false)
     else (σ1, w1, true)
 
 /-- bookkeeping after a slot that did not finish the task: remember the first booked slot of a
